@@ -481,7 +481,16 @@ def dom_marker_reset(ctx, prog):
 
 dom_marker_reset.rule_id = "C09.DOM-marker-reset"
 
-RULES = [dtab_node_update, dtab_run, wmc_handlers, guard_inuse, sign_unsub, sign_count, dom_marker_reset]
+def data_identities(ctx, prog):
+    """A live subscription keeps its token for itself: tokens come from a monotone per-observer counter
+    (C10.DATA-identities, reported here too)."""
+    from .c10 import data_identities as f
+    f(ctx, prog, "C09.DATA-identities")
+
+
+data_identities.rule_id = "C09.DATA-identities"
+
+RULES = [dtab_node_update, dtab_run, wmc_handlers, guard_inuse, sign_unsub, sign_count, dom_marker_reset, data_identities]
 
 # control signature of the bookkeeping effects this property depends on (rules/ctrlsig.py)
 from .ctrlsig import make_rule as _ctrl_rule  # noqa: E402
